@@ -84,6 +84,8 @@ var witnessDefs = []witnessDef{
 	{ID: "KF-C02-13", Prop: "C02", Query: `{ hero { ... on Human { friend { id name } } ... on Human { friend { name } } } }`},
 	{ID: "KF-C01-14", Prop: "C01", Query: `query($id: Int) { hero { name age(n: $id) } }`, Vars: map[string]any{"id": 5}},
 	{ID: "KF-C02-14", Prop: "C02", Query: `query($id: Int) { hero { name age(n: $id) } }`, Vars: map[string]any{"id": 5}},
+	{ID: "KF-C01-15", Prop: "C01", Query: `{ hero { name id: alpha age } }`},
+	{ID: "KF-C02-15", Prop: "C02", Query: `{ hero { name id: alpha age } }`},
 	{ID: "KF-C01-09", Prop: "C01", Query: `{ hero { y: friend { name friend { age } } friend { name friend { boss { name } } } } }`},
 }
 
